@@ -13,8 +13,12 @@ def main() -> int:
     ap.add_argument('--tier', default=os.environ.get('VERIF_TIER', 'quick'), choices=['quick', 'thorough'])
     ap.add_argument('--replay')
     ap.add_argument('--selftest', action='store_true')
+    ap.add_argument('--growth', action='store_true')
     a = ap.parse_args()
     try:
+        if a.growth:
+            from lv.checks import growth
+            return growth.main()
         if a.selftest:
             from lv import selftest
             return selftest.main()
